@@ -139,7 +139,7 @@ pub fn unlisted_case_runs(with: &[u8], without: &[u8]) -> Result<(), String> {
 /// 0x40..=0x7e other than `m` and four parameter strings; an ESC with every final byte 0x30..=0x7e, bare and after an
 /// intermediate; a DCS / SOS / PM / APC string.  None of them may change the style or the text.
 pub fn non_sgr_cases() -> Vec<Vec<u8>> {
-    let prefix: &[u8] = b"\x1b[1;4;38;5;208;48;2;1;2;3ma";
+    let prefix: &[u8] = b"\x1b[1;4;91;44;58;5;208ma";
     let mut out = vec![];
     let mut push = |seq: Vec<u8>| {
         let mut v = prefix.to_vec();
